@@ -42,6 +42,11 @@ def U(name):
         "Prs": [{"k": "par", "cfg": {"cc": "all_completed"}, "branches": [
             [{"k": "step", "fn": {"ret": "pre"}}, {"k": "step", "fn": {"fail": 1, "then": {"ret": "ok"}}, "retry": {"table": [1, "no"]}}],
             [{"k": "step", "fn": {"sleep": 4, "then": {"ret": "slow"}}}]]}],
+        # early completion: the operation returns while the other branch still has work in flight
+        "Pe": [{"k": "par", "cfg": {"cc": "first"}, "branches": [
+            [{"k": "step", "fn": {"ret": "A"}}],
+            [{"k": "step", "fn": {"ret": "B1"}}, {"k": "step", "fn": {"ret": "B2"}}]]}],
+        "Me": [{"k": "map", "items": [1, 2, 3], "cfg": {"min": 1}, "body": [{"k": "step", "fn": {"item": True}}]}],
         "Sd": [{"k": "step", "fn": {"sleep": 0.12, "then": {"ret": "d"}}}],
         "Hd": [{"k": "child", "body": [{"k": "step", "fn": {"sleep": 0.12, "then": {"ret": "d"}}}]}],
         "M": [{"k": "map", "items": [1, 2], "body": [{"k": "step", "fn": {"item": True}}]}],
@@ -57,7 +62,7 @@ def U(name):
 FULL = ["S", "Sv", "Sm", "R", "F", "W", "C", "Cs", "K", "I", "N", "H", "P", "M"]
 REDUCED = ["S", "R", "W", "C", "H", "P"]
 NESTED = ["Hh", "Hf", "Pw", "Pc", "Mw", "N3", "R2", "Nf", "Big", "Psw", "Prs"]
-CONCURRENT = {"P", "Pw", "Pc", "M", "Mw", "Psw", "Prs"}
+CONCURRENT = {"P", "Pw", "Pc", "M", "Mw", "Psw", "Prs", "Pe", "Me"}
 
 
 def program(names):
